@@ -336,12 +336,15 @@ impl RtMessage {
             result.push_str(&value.len().to_string());
             result.push_str(") = ");
 
-            if tag.is_nested() {
-                let nested_msg = RtMessage::from_bytes(value).unwrap();
-                result.push_str(&nested_msg.to_string(indent_level + 1))
-            } else {
-                result.push_str(&HEX.encode(value));
-                result.push('\n');
+            // a nested value that is not a valid message is shown as hex, like any other value
+            match RtMessage::from_bytes(value) {
+                Ok(nested_msg) if tag.is_nested() => {
+                    result.push_str(&nested_msg.to_string(indent_level + 1))
+                }
+                _ => {
+                    result.push_str(&HEX.encode(value));
+                    result.push('\n');
+                }
             }
         }
 
